@@ -661,6 +661,8 @@ class DatasetBuilder:
             raise DataError(f"{n_bad} unknown entity IDs")
 
         val_array: pa.Array = pa.array(values)  # type: ignore
+        # the mask is filled in table order, so put the values in that order too
+        val_array = val_array.take(pa.array(np.argsort(nums.to_numpy(), kind="stable")))
         tbl_mask = np.zeros(e_tbl.num_rows, dtype=np.bool_)
         tbl_mask[nums.to_numpy()] = True
         tbl_mask = pa.array(tbl_mask)
